@@ -67,7 +67,10 @@ def gen_cases(tier, seed):
                           "action": "fault", "errno": r.choice([5, 28])})
         sch = dict(r.choice(SCHEDS))
         sch["sched_seed"] = r.randrange(1 << 30)
-        yield {"spec": spec, "driver": driver, "updater": upd, "mode": mode, "bs": bs, "workers": r.choice([1, 2, 4, 8]), "policy": pol, "rules": rules,
+        deref = pol == "none" and r.random() < 0.2
+        if deref:
+            spec = [e for e in spec if e["k"] != "l" or (e["k"] == "l" and not e["target"].startswith("no/") and not e["target"].startswith("@"))]
+        yield {"deref": deref, "spec": spec, "driver": driver, "updater": upd, "mode": mode, "bs": bs, "workers": r.choice([1, 2, 4, 8]), "policy": pol, "rules": rules,
                "plan": sch, "fs": "ext4"}
 
 
@@ -134,7 +137,7 @@ def run_case(case):
             rules.append(x)
         plan = dict(case["plan"])
         plan.update({"log_mode": "full", "marker_fd": 999, "driver": case["driver"], "rules": rules, "pct_horizon": 400, "max_steps": 2000000})
-        argv = [PROBE_BIN["probe_xcp"], case["driver"], case["updater"], case["mode"], str(case["workers"]), str(case["bs"]), "--", "src", "dst"]
+        argv = [PROBE_BIN["probe_xcp"], case["driver"], case["updater"], case["mode"], str(case["workers"]), str(case["bs"])] + (["--dereference"] if case.get("deref") else []) + ["--", "src", "dst"]
         run = core.run_supervised(sb, argv, plan)
         if run.verdict != "exited":
             res["inconc"].append("run-" + run.verdict)
@@ -159,6 +162,19 @@ def run_case(case):
         files = [m for m in mapping if m["rec"]["k"] == "f"]
         total = sum(m["rec"]["size"] for m in files)
         incomplete = bool(model.check_mirror(pre, post, mapping))
+        if case.get("deref"):
+            # every link stands for what it points to: sizes follow stat(), and the mirror oracle of C13 is not repeated here
+            total = 0
+            for dp, dn, fn in os.walk(os.path.join(b(root), b"src"), followlinks=True):
+                for n in fn:
+                    try:
+                        st = os.stat(os.path.join(dp, n))
+                    except OSError:
+                        continue
+                    import stat as _st
+                    if _st.S_ISREG(st.st_mode):
+                        total += st.st_size
+            incomplete = False
         got_error = any(j["t"] == "error" for j in stream)
         shrunk = case["policy"] == "cfr-eof" and run.rule("z")["applied"] > 0
         # (5) incomplete destination => Error update or Err (not judged when the source was made to end early)
